@@ -740,6 +740,15 @@ func (p *bprover) defFacts(s *factSet, goal dfact) {
 						break
 					}
 					if !isIntType(y.Type()) {
+						// two slices that both grow by exactly one element per iteration: the difference of their lengths is constant
+						if y != x {
+							if d, ok := lockstepSlicePhis(x, y); ok {
+								yn := lenNode(y)
+								p.vals[yn] = y
+								s.fs = append(s.fs, dfact{n, yn, d}, dfact{yn, n, -d})
+								push(yn)
+							}
+						}
 						continue
 					}
 					if d, ok := lockstepLenPhi(x, y); ok {
@@ -955,6 +964,19 @@ func (p *bprover) parityOf(n string, s *factSet, seen map[string]bool) (int, boo
 // direct tries to prove the goal from the facts at hand.
 func (p *bprover) direct(goal dfact, s *factSet) bool {
 	p.defFacts(s, goal)
+	// a disequality the facts contradict (x != c where the path fixed x = c): the point is unreachable on this path
+	for _, n := range s.ns {
+		d1, ok1 := shortest(s.fs, n.a, n.b)
+		if !ok1 || d1 > n.c {
+			continue
+		}
+		if d2, ok2 := shortest(s.fs, n.b, n.a); ok2 && d2 <= -n.c {
+			if os.Getenv("RG_DEBUG_INFEASIBLE") != "" {
+				fmt.Fprintf(os.Stderr, "infeasible in %s: %s - %s != %d contradicted; goal %s\n", p.fn.Name(), n.a, n.b, n.c, goal)
+			}
+			return true
+		}
+	}
 	d, ok := shortest(s.fs, goal.a, goal.b)
 	if !ok {
 		return false
@@ -1029,7 +1051,6 @@ func (p *bprover) prove(goal dfact, b *ssa.BasicBlock, extra *factSet, depth int
 		if p.stack[key] {
 			return true // induction hypothesis
 		}
-		p.stack[key] = true
 		// path facts between j and b: the chain facts restricted to blocks strictly dominated by j
 		path := &factSet{par: map[string]int{}}
 		path.add(extra.fs, extra.ns, extra.par)
@@ -1038,60 +1059,122 @@ func (p *bprover) prove(goal dfact, b *ssa.BasicBlock, extra *factSet, depth int
 				p.edgeFacts(x.Preds[0], x, path)
 			}
 		}
-		all := true
-		for i, pred := range j.Preds {
-			sub := map[string]lt{}
-			for _, in := range j.Instrs {
-				phi, ok := in.(*ssa.Phi)
-				if !ok {
-					break
-				}
-				if isIntType(phi.Type()) {
-					sub["v:"+phi.Name()] = p.lin(phi.Edges[i])
-				} else {
-					// slice-valued phi: len node renaming
-					from := "len:" + phi.Name()
-					to := lenNode(phi.Edges[i])
-					p.vals[to] = phi.Edges[i]
-					if from != to {
-						sub[from] = lt{to, 0}
-					}
-				}
-			}
-			g := substFact(goal, sub)
-			pf := &factSet{par: map[string]int{}}
-			for _, f := range path.fs {
-				pf.fs = append(pf.fs, substFact(f, sub))
-			}
-			for _, n := range path.ns {
-				a, ka := substNode(n.a, sub)
-				bb, kb := substNode(n.b, sub)
-				pf.ns = append(pf.ns, dneq{a, bb, n.c - ka + kb})
-			}
-			for k, v := range path.par {
-				if r, ok := sub[k]; ok {
-					pf.par[r.n] = (v + int(((r.k%2)+2)%2)) % 2
-				} else {
-					pf.par[k] = v
-				}
-			}
-			p.edgeFacts(pred, j, pf)
+		// Induction over the arrivals at a loop header assumes the goal for the previous iteration. That is what was
+		// proved only if the conditions between the header and the site held in that iteration too: the site lies on
+		// every way to the back edge, or the conditions do not change from one iteration to the next. A site behind
+		// the loop (or in a branch of its body) gets two attempts: induction with the loop-invariant conditions only,
+		// then a plain case split over all predecessors with every condition but without a hypothesis.
+		isLoop, siteInBody := false, true
+		for _, pred := range j.Preds {
 			if j.Dominates(pred) {
-				// back edge: the goal itself is the induction hypothesis for the current iteration
-				pf.fs = append(pf.fs, goal)
-			}
-			// facts at the end of pred = facts at its entry (chain) + its own defs
-			if !p.proveAtEnd(g, pred, pf, depth-1) {
-				all = false
-				break
+				isLoop = true
+				if !b.Dominates(pred) {
+					siteInBody = false
+				}
 			}
 		}
-		delete(p.stack, key)
-		if all {
-			return true
+		attempts := []struct {
+			facts      *factSet
+			hypothesis bool
+		}{{path, true}}
+		if isLoop && !siteInBody {
+			attempts = []struct {
+				facts      *factSet
+				hypothesis bool
+			}{{p.invariantFacts(path, j), true}, {path, false}}
+		}
+		for _, at := range attempts {
+			if at.hypothesis {
+				p.stack[key] = true
+			}
+			all := true
+			for i, pred := range j.Preds {
+				sub := map[string]lt{}
+				for _, in := range j.Instrs {
+					phi, ok := in.(*ssa.Phi)
+					if !ok {
+						break
+					}
+					if isIntType(phi.Type()) {
+						sub["v:"+phi.Name()] = p.lin(phi.Edges[i])
+					} else {
+						// slice-valued phi: len node renaming
+						from := "len:" + phi.Name()
+						to := lenNode(phi.Edges[i])
+						p.vals[to] = phi.Edges[i]
+						if from != to {
+							sub[from] = lt{to, 0}
+						}
+					}
+				}
+				g := substFact(goal, sub)
+				pf := &factSet{par: map[string]int{}}
+				for _, f := range at.facts.fs {
+					pf.fs = append(pf.fs, substFact(f, sub))
+				}
+				for _, n := range at.facts.ns {
+					a, ka := substNode(n.a, sub)
+					bb, kb := substNode(n.b, sub)
+					pf.ns = append(pf.ns, dneq{a, bb, n.c - ka + kb})
+				}
+				for k, v := range at.facts.par {
+					if r, ok := sub[k]; ok {
+						pf.par[r.n] = (v + int(((r.k%2)+2)%2)) % 2
+					} else {
+						pf.par[k] = v
+					}
+				}
+				p.edgeFacts(pred, j, pf)
+				if j.Dominates(pred) && at.hypothesis {
+					// back edge: the goal itself is the induction hypothesis for the current iteration
+					pf.fs = append(pf.fs, goal)
+				}
+				// facts at the end of pred = facts at its entry (chain) + its own defs
+				if !p.proveAtEnd(g, pred, pf, depth-1) {
+					all = false
+					break
+				}
+			}
+			delete(p.stack, key)
+			if all {
+				return true
+			}
 		}
 	}
 	return false
+}
+
+// invariantFacts keeps the facts whose terms are all computed before the loop headed by j is entered.
+func (p *bprover) invariantFacts(s *factSet, j *ssa.BasicBlock) *factSet {
+	inv := func(n string) bool {
+		if n == "0" {
+			return true
+		}
+		switch v := p.vals[n].(type) {
+		case *ssa.Parameter, *ssa.Const, *ssa.Global, *ssa.FreeVar, *ssa.Function:
+			return true
+		case ssa.Instruction:
+			return v.Block() != j && v.Block() != nil && v.Block().Dominates(j)
+		}
+		return false
+	}
+	out := &factSet{par: map[string]int{}}
+	for _, f := range s.fs {
+		if inv(f.a) && inv(f.b) {
+			out.fs = append(out.fs, f)
+		}
+	}
+	for _, n := range s.ns {
+		if inv(n.a) && inv(n.b) {
+			out.ns = append(out.ns, n)
+		}
+	}
+	for k, v := range s.par {
+		if inv(k) {
+			out.par[k] = v
+		}
+	}
+	return out
 }
 
 func (p *bprover) proveAtEnd(goal dfact, b *ssa.BasicBlock, extra *factSet, depth int) bool {
@@ -1706,6 +1789,12 @@ func (c *C) proveSite(p *bprover, in ssa.Instruction) (bool, string) {
 							return true, ""
 						}
 					}
+				}
+			}
+			// the index of the best element so far: 0 at first, later only ever the position of the element just appended
+			if ip, ok := idx.(*ssa.Phi); ok {
+				if sp, ok := x.(*ssa.Phi); ok && bestSoFarIndex(ip, sp) && p.ProveLE(zero, up, -1, in) {
+					return true, ""
 				}
 			}
 			return false, "upper bound: cannot show " + canon(idx) + " < len(" + canon(x) + ")"
@@ -2393,15 +2482,8 @@ func lockstepLenPhi(x, y *ssa.Phi) (int64, bool) {
 			continue
 		}
 		x0 := int64(-1)
-		switch e := x.Edges[i].(type) {
-		case *ssa.MakeSlice:
-			if k, ok := constInt(e.Len); ok {
-				x0 = k
-			}
-		case *ssa.Const:
-			if e.IsNil() {
-				x0 = 0
-			}
+		if k, ok := constSliceLen(x.Edges[i]); ok {
+			x0 = k
 		}
 		y0, ok := constInt(y.Edges[i])
 		if x0 < 0 || !ok {
@@ -2566,4 +2648,223 @@ func lockstepFields(fn *ssa.Function, idx, k1, k2 int) bool {
 		}
 	}
 	return any
+}
+
+// lockstepSlicePhis: x and y are slice phis of one loop header; from outside the loop both have a constant length
+// (make with a constant length, nil); on every back edge each is append(itself, one element). Then len(x) - len(y) keeps
+// its initial value, which is returned.
+func lockstepSlicePhis(x, y *ssa.Phi) (int64, bool) {
+	b := x.Block()
+	if y.Block() != b || len(x.Edges) != len(y.Edges) {
+		return 0, false
+	}
+	if _, ok := y.Type().Underlying().(*types.Slice); !ok {
+		return 0, false
+	}
+	oneMore := func(phi *ssa.Phi, e ssa.Value) bool {
+		ap, ok := isAppend(e)
+		if !ok || ap.Call.Args[0] != ssa.Value(phi) {
+			return false
+		}
+		elems, ok := sliceLiteralElems(ap.Call.Args[1])
+		return ok && len(elems) == 1
+	}
+	constLen := constSliceLen
+	d, have, back := int64(0), false, false
+	for i, pred := range b.Preds {
+		if b.Dominates(pred) {
+			if !oneMore(x, x.Edges[i]) || !oneMore(y, y.Edges[i]) {
+				return 0, false
+			}
+			back = true
+			continue
+		}
+		x0, ok1 := constLen(x.Edges[i])
+		y0, ok2 := constLen(y.Edges[i])
+		if !ok1 || !ok2 || (have && x0-y0 != d) {
+			return 0, false
+		}
+		d, have = x0-y0, true
+	}
+	return d, have && back
+}
+
+// constSliceLen: the length of a slice value that is fixed where it is made: make with a constant length (in either of
+// the two forms go/ssa gives it), the nil slice.
+func constSliceLen(e ssa.Value) (int64, bool) {
+	switch v := e.(type) {
+	case *ssa.MakeSlice:
+		return constInt(v.Len)
+	case *ssa.Const:
+		if v.IsNil() {
+			return 0, true
+		}
+	case *ssa.Slice:
+		al, ok := v.X.(*ssa.Alloc)
+		if !ok {
+			return 0, false
+		}
+		pt, ok := al.Type().Underlying().(*types.Pointer)
+		if !ok {
+			return 0, false
+		}
+		arr, ok := pt.Elem().Underlying().(*types.Array)
+		if !ok {
+			return 0, false
+		}
+		lo, hi := int64(0), arr.Len()
+		if v.Low != nil {
+			k, ok := constInt(v.Low)
+			if !ok {
+				return 0, false
+			}
+			lo = k
+		}
+		if v.High != nil {
+			k, ok := constInt(v.High)
+			if !ok {
+				return 0, false
+			}
+			hi = k
+		}
+		if lo < 0 || hi < lo {
+			return 0, false
+		}
+		return hi - lo, true
+	}
+	return 0, false
+}
+
+// bestSoFarIndex: idx and sl are phis of one loop header. From outside the loop idx is the constant 0. Inside, the slice
+// only grows, by one statement X = append(sl, one element), and idx is only ever left alone or set to len(X)-1 at a point
+// that X's block dominates; on every way from X's block to the back edge the slice carried on is X. Then
+// 0 <= idx <= max(0, len(sl)-1) holds whenever the header is reached, so idx < len(sl) wherever len(sl) >= 1.
+func bestSoFarIndex(idx, sl *ssa.Phi) bool {
+	h := idx.Block()
+	if sl.Block() != h || !isLoopHeaderBlock(h) || len(idx.Edges) != len(h.Preds) || len(sl.Edges) != len(h.Preds) {
+		return false
+	}
+	var x0 *ssa.Call
+	// leaves of the index on the back edges
+	var idxLeaves func(v ssa.Value, seen map[ssa.Value]bool) bool
+	idxLeaves = func(v ssa.Value, seen map[ssa.Value]bool) bool {
+		if seen[v] {
+			return true
+		}
+		seen[v] = true
+		if v == ssa.Value(idx) {
+			return true
+		}
+		switch y := v.(type) {
+		case *ssa.Phi:
+			if y.Block() == h || !h.Dominates(y.Block()) {
+				return false
+			}
+			for _, e := range y.Edges {
+				if !idxLeaves(e, seen) {
+					return false
+				}
+			}
+			return true
+		case *ssa.BinOp:
+			if k, ok := constInt(y.Y); !ok || k != 1 || y.Op != token.SUB {
+				return false
+			}
+			call, ok := y.X.(*ssa.Call)
+			if !ok {
+				return false
+			}
+			if b, ok := call.Call.Value.(*ssa.Builtin); !ok || b.Name() != "len" {
+				return false
+			}
+			ap, ok := isAppend(call.Call.Args[0])
+			if !ok || ap.Call.Args[0] != ssa.Value(sl) {
+				return false
+			}
+			if elems, ok := sliceLiteralElems(ap.Call.Args[1]); !ok || len(elems) != 1 {
+				return false
+			}
+			if x0 != nil && x0 != ap {
+				return false
+			}
+			x0 = ap
+			return ap.Block().Dominates(y.Block())
+		}
+		return false
+	}
+	// the slice carried to the back edge: sl or X; exactly X on every phi edge whose predecessor X's block dominates
+	var onlyX func(v ssa.Value, seen map[ssa.Value]bool) bool
+	onlyX = func(v ssa.Value, seen map[ssa.Value]bool) bool {
+		if v == ssa.Value(x0) {
+			return true
+		}
+		if y, ok := v.(*ssa.Phi); ok && y.Block() != h && !seen[v] {
+			seen[v] = true
+			for _, e := range y.Edges {
+				if !onlyX(e, seen) {
+					return false
+				}
+			}
+			return true
+		}
+		return false
+	}
+	var slLeaves func(v ssa.Value, seen map[ssa.Value]bool) bool
+	slLeaves = func(v ssa.Value, seen map[ssa.Value]bool) bool {
+		if seen[v] {
+			return true
+		}
+		seen[v] = true
+		if v == ssa.Value(sl) || (x0 != nil && v == ssa.Value(x0)) {
+			return true
+		}
+		y, ok := v.(*ssa.Phi)
+		if !ok || y.Block() == h || !h.Dominates(y.Block()) {
+			return false
+		}
+		for i, e := range y.Edges {
+			if x0 != nil && x0.Block().Dominates(y.Block().Preds[i]) {
+				if !onlyX(e, map[ssa.Value]bool{}) {
+					return false
+				}
+				continue
+			}
+			if !slLeaves(e, seen) {
+				return false
+			}
+		}
+		return true
+	}
+	back := false
+	for i, pred := range h.Preds {
+		if !h.Dominates(pred) {
+			if k, ok := constInt(idx.Edges[i]); !ok || k != 0 {
+				return false
+			}
+			continue
+		}
+		back = true
+		if !idxLeaves(idx.Edges[i], map[ssa.Value]bool{}) {
+			return false
+		}
+	}
+	if !back {
+		return false
+	}
+	for i, pred := range h.Preds {
+		if !h.Dominates(pred) {
+			continue
+		}
+		e := sl.Edges[i]
+		if x0 != nil && x0.Block().Dominates(pred) {
+			if !onlyX(e, map[ssa.Value]bool{}) {
+				return false
+			}
+			continue
+		}
+		if !slLeaves(e, map[ssa.Value]bool{}) {
+			return false
+		}
+	}
+	return true
 }
